@@ -673,6 +673,8 @@ def scalar_of(t, dtype="real"):
 def t_abs(t):
     if _num(t):
         return abs(t)
+    if not sym._small(t, 80) or sym._has_nl_real_mul(t):
+        return z3.If(t >= 0, t, -t)          # no context-aware simplification on large / non-linear terms (cost)
     if valid(t >= 0):
         return t
     if valid(t <= 0):
